@@ -113,6 +113,7 @@ reg(Spec(
           "grid, one interval, last interval, empty, point-like, suffix, two "
           "random sub-windows) on a generated grid of 2..12 points with general "
           "coefficients. Abscissae per spline: every point of the WHOLE grid, "
+          "the immediate neighbours of every grid point (nextafter / 2^-100), "
           "every midpoint, 8 random points in the grid range, both support "
           "ends +- the smallest step (nextafter for floating types, 2^-40 for "
           "Q), +-1000 outside, 0 and -0. Oracle: outside the closed support the "
@@ -130,6 +131,7 @@ reg(Spec(
     required=["window:whole-grid", "window:one-interval",
               "window:last-interval", "window:empty", "window:point-like",
               "window:suffix-window", "window:sub-window", "x:grid-point",
+              "x:grid-point-neighbour",
               "x:just-outside-left", "x:just-outside-right",
               "x:just-inside-left", "x:just-inside-right", "x:far-outside",
               "frontback:empty-throws", "frontback:ends-checked",
@@ -1044,7 +1046,8 @@ reg(Spec(
           "indeterminate: reading it is counted), explicit construction from a "
           "built-in integer, + - * / with compound forms, unary minus, six "
           "comparisons; conversion from floating types is deleted, "
-          "numeric_limits is specialised without members, there is no "
+          "numeric_limits is not specialised (so epsilon(), max() ... answer "
+          "with an indeterminate value whose reads are counted), there is no "
           "operator<< and no <cmath> overload. Observations: (a) every "
           "translation unit over the archetype - generator, evaluation, pool "
           "machine (with and without the self-checks), primitive operators, "
